@@ -20,6 +20,10 @@ pub enum Probe {
     DebugText,
     LayerVisible(u32),
     TileLookup(u32, u32, u32, u32),
+    /// `tag_by_name(name of tag k)` as one call of its own (so that lookups happen in every order)
+    TagByName(u32),
+    LayerByName(u32),
+    NameMissing,
 }
 
 impl Probe {
@@ -48,6 +52,15 @@ impl Probe {
                 (ly.is_visible() as u64) << 32 | ly.parent().map(|p| p.id() as u64 + 1).unwrap_or(0)
             }
             Probe::TileLookup(l, f, x, y) => ase.tilemap(*l, *f).map(|t| t.tile(*x, *y).id() as u64 + 1).unwrap_or(0),
+            Probe::TagByName(k) => {
+                let name = ase.tag(*k).name().to_string();
+                ase.tag_by_name(&name).map(|t| (t.from_frame() as u64) << 40 | (t.to_frame() as u64) << 16 | t.name().len() as u64 + 1).unwrap_or(0)
+            }
+            Probe::LayerByName(k) => {
+                let name = ase.layer(*k).name().to_string();
+                ase.layer_by_name(&name).map(|l| l.id() as u64 + 1).unwrap_or(0)
+            }
+            Probe::NameMissing => (ase.tag_by_name("\u{1}no such tag").is_some() as u64) << 1 | ase.layer_by_name("\u{1}no such layer").is_some() as u64,
         }
     }
 }
@@ -74,6 +87,13 @@ pub fn probes_for(ase: &AsepriteFile) -> Vec<Probe> {
             v.push(Probe::CelImage(f, l));
         }
     }
+    for k in 0..ase.num_tags().min(24) {
+        v.push(Probe::TagByName(k));
+    }
+    for k in 0..ase.num_layers().min(12) {
+        v.push(Probe::LayerByName(k));
+    }
+    v.push(Probe::NameMissing);
     for l in 0..nl {
         v.push(Probe::LayerVisible(l));
         for f in 0..nf {
